@@ -7,7 +7,7 @@ custom isotopic vectors -- are then put into those objects in Python as symbolic
 (AssemblyBlueprint._createBlock, BlockBlueprint.construct, ComponentBlueprint.construct, Material.applyInputParams,
 CustomIsotopic.apply, densityTools.applyIsotopicsMix) runs on them.
 """
-from symx.core import AND, OR, NOT, IMPLIES, ITE, is_sym
+from symx.core import AND, OR, NOT, IMPLIES, IFF, ITE, is_sym
 from symx.engine import harness
 from symx import shims
 
@@ -87,9 +87,27 @@ def is_hm(name):
     return nuclideBases.byName[name].isHeavyMetal()
 
 
-def configure(d, mods, byComponent=None, isotopics=None, feeds=None):
+NUMBER_DENSITY_FEED_DENSITY = 7.3      # g/cc of a feed written as number densities (any positive number)
+
+
+def in_format(vec, fmt):
+    """The entries a user writes for the composition `vec` (mass fractions summing to one) in the input format `fmt`:
+    number fractions are proportional to mass fraction / atomic weight and sum to one; number densities (atoms per
+    barn-cm) are those of the composition at some density."""
+    if fmt == "mass fractions":
+        return dict(vec)
+    moles = {n: v / nuclideBases.byName[n].weight for n, v in vec.items()}
+    if fmt == "number fractions":
+        tot = sum(moles.values())
+        return {n: v / tot for n, v in moles.items()}
+    assert fmt == "number densities"
+    return {n: v * NUMBER_DENSITY_FEED_DENSITY * unitsmod.MOLES_PER_CC_TO_ATOMS_PER_BARN_CM for n, v in moles.items()}
+
+
+def configure(d, mods, byComponent=None, isotopics=None, feeds=None, formats=None):
     """Put the numbers of one harness run into the (shared, concrete) blueprint objects.  Everything a run depends on
-    is set here on every call."""
+    is set here on every call.  feeds: custom isotopic vectors as mass fractions; formats: the `input format` in which
+    each one is written (default: mass fractions)."""
     aD = d.assemDesigns["fuel a"]
     for k in list(aD.materialModifications):
         del aD.materialModifications[k]
@@ -105,8 +123,9 @@ def configure(d, mods, byComponent=None, isotopics=None, feeds=None):
     d.blockDesigns["fuel"]["fuel"].isotopics = isotopics
     for name, vec in (feeds or {"feedA": {"PU239": 1.0}, "feedB": {"U238": 1.0}}).items():
         # the real input object, built the way yamlize builds it (__init__ is not called by yamlize either)
-        ci = CustomIsotopic(name, "mass fractions", None)
-        for nuc, v in vec.items():
+        fmt = (formats or {}).get(name, "mass fractions")
+        ci = CustomIsotopic(name, fmt, None)
+        for nuc, v in in_format(vec, fmt).items():
             ci[nuc] = v
         ci._initializeMassFracs()
         ci._expandElementMassFracs()
@@ -175,6 +194,9 @@ FEEDS = {
 }
 
 
+FORMATS = ("mass fractions", "number fractions", "number densities")
+
+
 def feed_vectors(ctx, key):
     out = {}
     for name, nucs in zip(("feedA", "feedB"), FEEDS[key]):
@@ -189,10 +211,15 @@ def feed_vectors(ctx, key):
 @harness("C18", bounds="UZr fuel; block 1 symbolic: ZR_wt_frac, U235_wt_frac, class1_wt_frac in [0, 1] and the two "
                        "custom isotopic feed vectors (mass fractions in [0,1] summing to one; which nuclides each "
                        "feed names is the instance, including feeds that leave out a heavy-metal nuclide of the "
-                       "library material)", stubs=STUBS,
-         instances={"quick": [dict(feeds="Pu+U238"), dict(feeds="PuU+DU")],
-                    "thorough": [dict(feeds=k) for k in FEEDS]}, qtimeout_ms=20000)
-def class1_class2_blend_replaces_the_heavy_metal_of_the_material(ctx, feeds):
+                       "library material); each feed written as mass fractions, number fractions or number "
+                       "densities of the same composition (instance)", stubs=STUBS,
+         instances={"quick": [dict(feeds="Pu+U238"), dict(feeds="PuU+DU"),
+                              dict(feeds="LEU+DU", formats=["number fractions", "number densities"]),
+                              dict(feeds="PuU+DU", formats=["mass fractions", "number fractions"])],
+                    "thorough": [dict(feeds=k) for k in FEEDS] +
+                                [dict(feeds=k, formats=[fa, fb]) for k in FEEDS for fa in FORMATS for fb in FORMATS
+                                 if (fa, fb) != (FORMATS[0], FORMATS[0])]}, qtimeout_ms=20000)
+def class1_class2_blend_replaces_the_heavy_metal_of_the_material(ctx, feeds, formats=("mass fractions", "mass fractions")):
     d, cs = design()
     z = ctx.real("ZR_wt_frac", 0.0, 1.0)
     e = ctx.real("U235_wt_frac", 0.0, 1.0)
@@ -203,7 +230,7 @@ def class1_class2_blend_replaces_the_heavy_metal_of_the_material(ctx, feeds):
         ctx.assume(w > 0)
     mods = {"ZR_wt_frac": [0.1, z], "U235_wt_frac": [0.2, e], "class1_wt_frac": ["", w],
             "class1_custom_isotopics": ["", "feedA"], "class2_custom_isotopics": ["", "feedB"]}
-    aD = configure(d, mods, feeds=vec)
+    aD = configure(d, mods, feeds=vec, formats=dict(zip(("feedA", "feedB"), formats)))
     a = aD.construct(cs, d)
     mf0 = a[0].getComponentByName("fuel").material.massFrac
     ctx.check_close("block 0 (no blend requested) keeps its own enrichment", mf0["U235"], 0.2 * 0.9, scale=1.0)
@@ -222,12 +249,36 @@ def class1_class2_blend_replaces_the_heavy_metal_of_the_material(ctx, feeds):
     ctx.check_close("the heavy metal still makes up 1 - ZR_wt_frac of the material", total, 1 - z, scale=1.0)
 
 
+# Reported by an independent engineer and confirmed on the unchanged tree: densityTools.expandElementalMassFracsToNuclides
+# puts the isotopes of an expanded element into the vector with massFracs.update(...): an isotope that the vector ALSO
+# names explicitly (custom isotopics {ZR: 0.1, ZR90: 0.05, U238: 0.85}) loses its explicit share, the composition no
+# longer sums to one.  Plain-Python reproduction:
+#   mf = {"ZR": 0.1, "ZR90": 0.05, "U238": 0.85}
+#   densityTools.expandElementalMassFracsToNuclides(mf, [(elements.bySymbol["ZR"], None)]); sum(mf.values()) -> 0.95
+# Patch: /tmp/scratch/triage/KNOWN_DEFECT_explicit_isotope_next_to_its_element_is_overwritten.diff; the instances that
+# name an element together with one of its isotopes are switched on when the flag is False.
+KNOWN_DEFECT_explicit_isotope_next_to_its_element_is_overwritten = True
+_ELEMENT_AND_ISOTOPE = [] if KNOWN_DEFECT_explicit_isotope_next_to_its_element_is_overwritten else \
+    [dict(nucs=["U238", "ZR90", "ZR"])]
+
+
+def natural_mass_share(element, isotope):
+    """Mass share of an isotope in the natural element: abundance x atomic weight, normalised."""
+    from armi.nucDirectory import elements
+
+    iso = elements.bySymbol[element].getNaturalIsotopics()
+    tot = sum(nb.abundance * nb.weight for nb in iso)
+    return sum(nb.abundance * nb.weight for nb in iso if nb.name == isotope) / tot
+
+
 @harness("C18", bounds="UZr fuel component with `isotopics: <custom vector>` and no material modifications; the custom "
                        "vector (mass fractions in [0,1] summing to one) is symbolic; which nuclides it names is the "
-                       "instance (vectors that leave out nuclides of the library material included)", stubs=STUBS,
-         instances={"quick": [dict(nucs=["U235", "U238"]), dict(nucs=["PU239", "U238", "ZR"])],
+                       "instance (vectors that leave out nuclides of the library material, and vectors naming an "
+                       "element together with one of its isotopes, included)", stubs=STUBS,
+         instances={"quick": [dict(nucs=["U235", "U238"]), dict(nucs=["PU239", "U238", "ZR"])] + _ELEMENT_AND_ISOTOPE,
                     "thorough": [dict(nucs=["U235", "U238"]), dict(nucs=["PU239", "U238", "ZR"]),
-                                 dict(nucs=["PU239", "PU240"]), dict(nucs=["U235", "ZR"])]})
+                                 dict(nucs=["PU239", "PU240"]), dict(nucs=["U235", "ZR"])] + _ELEMENT_AND_ISOTOPE +
+                                [dict(nucs=["U235", "ZR", "ZR94"]) for _ in _ELEMENT_AND_ISOTOPE]})
 def custom_isotopics_replace_the_library_composition(ctx, nucs):
     d, cs = design()
     fr = [ctx.real("massFrac_" + n, 0.0, 1.0) for n in nucs[:-1]]
@@ -245,8 +296,12 @@ def custom_isotopics_replace_the_library_composition(ctx, nucs):
             want = want + narrow(fr[0], 0.30, 0.31)
         ctx.check_close("mass fraction of %s is the one of the custom vector (0 when it is not named)" % n,
                         mf.get(n, 0.0), want, scale=1.0)
-    ctx.check_close("zirconium (expanded to its isotopes) is the one of the custom vector", zr_of(mf),
-                    vec.get("ZR", 0.0), scale=1.0)
+    ctx.check_close("zirconium (the element expanded to its isotopes, plus isotopes named explicitly) is the one of "
+                    "the custom vector", zr_of(mf), zr_of(vec), scale=1.0)
+    for n in sorted(vec):
+        if n.startswith("ZR") and n != "ZR":
+            ctx.check_close("explicitly named %s: its own entry plus its natural share of the element entry" % n,
+                            mf.get(n, 0.0), vec[n] + natural_mass_share("ZR", n) * vec.get("ZR", 0.0), scale=1.0)
     ctx.check_close("the composition sums to one", sum(mf.values()), 1.0, scale=1.0)
 
 
@@ -681,3 +736,256 @@ def density_given_with_custom_isotopics_is_the_density_at_the_input_temperature(
     other = [k for k in CUSTOM_DENSITY_CASES if k != comp][0]
     ctx.check_close("the other component keeps the density of its own custom vector (Thot = Tinput there)",
                     a[0].getComponentByName(other).density(), 5.0, scale=5.0)
+
+
+# =========================================================================================================
+# "blueprints that are inconsistent (... overlapping solid components ...) are refused with an error": a hex block with
+# a wire-wrapped pin bundle inside one or several nested hexagonal ducts.  The bundle of N pins (N = 7, 19, 37: complete
+# hexagonal rings) has its rows parallel to the duct flats; it overlaps the duct that encloses it -- the INNERMOST one
+# -- when its flat-to-flat extent exceeds that duct's inner flat-to-flat distance.  The dimensions the property
+# quantifies over are put into the blueprint objects as symbolic reals; BlockBlueprint.construct (components.factory,
+# resolveLinkedDims, HexBlock.verifyBlockDims / getPinToDuctGap) runs on them.
+
+import armi.reactor.blocks as blocksmod  # noqa: E402
+from armi.reactor.blueprints.componentBlueprint import ComponentDimension  # noqa: E402
+
+import armi.reactor.components.component as cmod  # noqa: E402
+
+shims.patch(blocksmod, round=shims.round_shim)
+shims.patch(cmod, np=shims.np_shim, float=shims.float_shim)
+import armi.reactor.components.complexShapes as cshapes  # noqa: E402
+
+shims.patch(cshapes, math=shims.math_shim)
+
+BUNDLE_TEMPLATE = r"""
+nuclide flags:
+    U: {{burn: false, xs: true}}
+    ZR: {{burn: false, xs: true}}
+    FE: {{burn: false, xs: true}}
+    NA: {{burn: false, xs: true}}
+    C: {{burn: false, xs: true}}
+    CR: {{burn: false, xs: true}}
+    MN: {{burn: false, xs: true}}
+    MO: {{burn: false, xs: true}}
+    NI: {{burn: false, xs: true}}
+    SI: {{burn: false, xs: true}}
+    V: {{burn: false, xs: true}}
+    W: {{burn: false, xs: true}}
+blocks:
+    fuel: &block_fuel
+        fuel:
+            shape: Circle
+            material: UZr
+            Tinput: 25.0
+            Thot: 25.0
+            id: 0.0
+            od: 0.2
+            mult: {npins}
+        clad:
+            shape: Circle
+            material: HT9
+            Tinput: 25.0
+            Thot: 25.0
+            id: 0.2
+            od: 1.0
+            mult: fuel.mult
+        wire:
+            shape: Helix
+            material: HT9
+            Tinput: 25.0
+            Thot: 25.0
+            axialPitch: 30.0
+            helixDiameter: 1.1
+            id: 0.0
+            od: 0.1
+            mult: fuel.mult
+{ducts}
+assemblies:
+    fuel a:
+        specifier: IC
+        blocks: [*block_fuel]
+        height: [10.0]
+        axial mesh points: [1]
+        xs types: [A]
+"""
+BUNDLE_DUCT = r"""        {name}:
+            shape: Hexagon
+            material: HT9
+            Tinput: 25.0
+            Thot: 25.0
+            ip: {ip}
+            op: {op}
+            mult: 1
+"""
+# duct components in the order in which the block lists them; the number is the nesting position (0 = innermost)
+DUCT_LAYOUTS = {
+    "one duct": [("duct", 0)],
+    "two ducts": [("inner duct", 0), ("outer duct", 1)],
+    "two ducts, outer listed first": [("outer duct", 1), ("inner duct", 0)],
+    "three ducts": [("middle duct", 1), ("inner duct", 0), ("outer duct", 2)],
+}
+_BUNDLES = {}
+
+
+def bundle_design(npins, layout):
+    key = (npins, layout)
+    if key not in _BUNDLES:
+        ducts = "".join(BUNDLE_DUCT.format(name=n, ip=20.0 + 2 * k, op=21.0 + 2 * k) for n, k in DUCT_LAYOUTS[layout])
+        d = blueprints.Blueprints.load(BUNDLE_TEMPLATE.format(npins=npins, ducts=ducts))
+        cs = settings.Settings()
+        d._prepConstruction(cs)          # (concrete numbers of the text: a bundle with plenty of room)
+        _BUNDLES[key] = (d, cs)
+    return _BUNDLES[key]
+
+
+def _set_dim(compDesign, dim, value):
+    setattr(compDesign, dim, ComponentDimension(value))
+
+
+@harness("C18", bounds="hex block: N wire-wrapped pins (N = 7, 19, 37 per instance) inside 1-3 nested hexagonal ducts "
+                       "(listed in any order, per instance); symbolic: clad outer diameter in [0.3, 2] cm, wire diameter "
+                       "in [0.05, 0.3] cm (wire in contact with the clad), inner flat-to-flat distance of the innermost "
+                       "duct in [1, 40] cm, wall thicknesses and the gaps between the ducts in [0.1, 2] cm",
+         stubs=STUBS + ["armi.reactor.blocks.round -> proxies are returned unrounded (verifyBlockDims rounds the wire/clad gap "
+                        "to decide about a warning)",
+                        "armi.reactor.components.component.np / .float -> object-array aware numpy shim, identity on proxies",
+                        "armi.reactor.components.complexShapes.math -> math shim (the length factor of the wire helix is "
+                        "an algebraic square root)"],
+         instances={"quick": [dict(npins=19, layout="two ducts"), dict(npins=7, layout="two ducts, outer listed first"),
+                              dict(npins=19, layout="one duct")],
+                    "thorough": [dict(npins=n, layout=l) for n in (7, 19, 37) for l in DUCT_LAYOUTS]},
+         qtimeout_ms=20000)
+def pin_bundle_wider_than_the_duct_that_encloses_it_is_refused(ctx, npins, layout):
+    d, cs = bundle_design(npins, layout)
+    cladOD = ctx.real("cladOD", 0.3, 2.0)
+    wireOD = ctx.real("wireOD", 0.05, 0.3)
+    ip0 = ctx.real("innermostDuctIP", 1.0, 40.0)
+    nDucts = len(DUCT_LAYOUTS[layout])
+    walls = [ctx.real("ductWall_%d" % k, 0.1, 2.0) for k in range(nDucts)]
+    gaps = [ctx.real("ductGap_%d" % k, 0.1, 2.0) for k in range(1, nDucts)]
+    ips, ops = [ip0], [ip0 + 2 * walls[0]]
+    for k in range(1, nDucts):
+        ips.append(ops[-1] + 2 * gaps[k - 1])
+        ops.append(ips[-1] + 2 * walls[k])
+    bD = d.blockDesigns["fuel"]
+    _set_dim(bD["clad"], "od", cladOD)
+    _set_dim(bD["wire"], "od", wireOD)
+    _set_dim(bD["wire"], "helixDiameter", cladOD + wireOD)
+    for name, k in DUCT_LAYOUTS[layout]:
+        _set_dim(bD[name], "ip", ips[k])
+        _set_dim(bD[name], "op", ops[k])
+    # from the input: rings of the hexagonal bundle, pin pitch, flat-to-flat extent of the wire-wrapped bundle
+    nRings = next(n for n in range(1, 30) if 3 * n * (n - 1) + 1 >= npins)
+    bundle = ctx.sqrt_const(3) * (nRings - 1) * (cladOD + wireOD) + cladOD + 2 * wireOD
+    excess = bundle - ips[0]                  # > 0: the bundle does not fit into the innermost duct
+    # (armi tolerates an overlap of up to 0.005 cm per side "for input precision"; stay clear of that band)
+    ctx.assume(OR(excess <= 0, excess >= 0.011))
+    try:
+        a = d.assemDesigns["fuel a"].construct(cs, d)
+        refused = False
+    except ValueError:
+        refused = True
+    limit = ITE(cladOD > 1.9, 5.0, 0.0) if ctx.canary else 0.0
+    ctx.check("the block is refused iff the pin bundle is wider than the inner flat-to-flat of its innermost duct",
+              IFF(refused, excess > limit))
+    if refused:
+        return
+    b = a[0]
+    for name, k in DUCT_LAYOUTS[layout]:
+        c = b.getComponentByName(name)
+        ctx.check("%s has the dimensions of the input" % name,
+                  AND(c.getDimension("ip", cold=True) == ips[k], c.getDimension("op", cold=True) == ops[k]))
+    ctx.check("clad and wire have the dimensions of the input",
+              AND(b.getComponentByName("clad").getDimension("od", cold=True) == cladOD,
+                  b.getComponentByName("wire").getDimension("od", cold=True) == wireOD,
+                  b.getComponentByName("wire").getDimension("mult") == npins))
+
+
+# =========================================================================================================
+# "blueprints that are inconsistent (unknown specifier, ..., duplicate names, ...) are refused with an error": the
+# SPECIFIER is the name by which the core and lattice maps refer to an assembly design; two designs that answer to the
+# same specifier make every map location of that specifier ambiguous.
+
+# Reported by an independent engineer and confirmed on the unchanged tree: Blueprints._prepConstruction fills
+# _assembliesBySpecifier[aDesign.specifier] = a for every design without looking whether the specifier is taken: of
+# two assembly designs with the same specifier the LAST one silently wins (constructAssem(specifier=...) and hence
+# every location of the core map gets it).  Reproduction: the text of specifier_text(["IC", "IC", "RR"]) below is
+# accepted by Blueprints.load(...)._prepConstruction(Settings()), and constructAssem(cs, specifier="IC") returns the
+# `design 1` assembly (xs type B), never `design 0`.  The obvious repair (refuse in _prepConstruction) breaks three of
+# armi's own blueprint tests, whose input has two designs with specifier IC: recorded in /verif/known_findings.jsonl
+# (predicate: two of the three specifierOfDesign_k inputs are equal), the obligation is live.  Setting the flag to
+# True narrows the quantifier to pairwise different specifiers instead.
+KNOWN_DEFECT_two_assembly_designs_with_one_specifier_are_accepted = False  # recorded in known_findings.jsonl
+
+TEMPLATE_SPECIFIERS = r"""
+nuclide flags:
+    U235: {{burn: false, xs: true}}
+    U238: {{burn: false, xs: true}}
+    ZR: {{burn: false, xs: true}}
+blocks:
+    fuel: &block_fuel
+        fuel:
+            shape: Circle
+            material: UZr
+            Tinput: 25.0
+            Thot: 25.0
+            id: 0.0
+            od: 1.0
+            mult: 1
+        duct:
+            shape: Hexagon
+            material: Void
+            Tinput: 25.0
+            Thot: 25.0
+            ip: 2.0
+            op: 2.1
+            mult: 1
+assemblies:
+{designs}"""
+SPECIFIER_DESIGN = r"""    design {k}:
+        specifier: {spec}
+        blocks: [*block_fuel]
+        height: [{height}]
+        axial mesh points: [1]
+        xs types: [{xs}]
+"""
+SPECIFIERS = ("IC", "MC", "RR")
+
+
+def specifier_text(specs):
+    return TEMPLATE_SPECIFIERS.format(designs="".join(
+        SPECIFIER_DESIGN.format(k=k, spec=s, height=10.0, xs="ABC"[k]) for k, s in enumerate(specs)))
+
+
+@harness("C18", bounds="three assembly designs (told apart by their xs types) given as blueprint TEXT; symbolic: which "
+                       "of three specifiers each design carries (all 27 assignments)",
+         stubs=["none: Blueprints.load + _prepConstruction + constructAssem on generated text"], max_paths=200)
+def assembly_designs_sharing_a_specifier_are_refused(ctx):
+    idx = [ctx.int("specifierOfDesign_%d" % k, 0, len(SPECIFIERS) - 1) for k in range(3)]
+    if KNOWN_DEFECT_two_assembly_designs_with_one_specifier_are_accepted:
+        ctx.note("KNOWN_DEFECT_two_assembly_designs_with_one_specifier_are_accepted: specifiers pairwise different")
+        ctx.assume(AND(idx[0] != idx[1], idx[0] != idx[2], idx[1] != idx[2]))
+    idx = [int(i) for i in idx]
+    specs = [SPECIFIERS[i] for i in idx]
+    distinct = len(set(specs)) == 3
+    mustRefuse = not distinct
+    if ctx.canary and idx == [2, 0, 1]:
+        mustRefuse = True                                  # one input of the family
+    cs = settings.Settings()
+    try:
+        design = blueprints.Blueprints.load(specifier_text(specs))
+        design._prepConstruction(cs)
+        refused = None
+    except ValueError as e:
+        refused = str(e).splitlines()[0][:100] if str(e) else "ValueError"
+    ctx.check("assembly designs are refused iff two of them carry the same specifier"
+              + ("" if refused or not mustRefuse else ": specifiers %s were accepted" % (specs,)),
+              (refused is not None) == mustRefuse)
+    if refused is not None:
+        return
+    for k, s in enumerate(specs):
+        if specs.count(s) > 1:
+            continue
+        a = design.constructAssem(cs, specifier=s)
+        ctx.check("the assembly built for specifier %s is the design that carries it" % s,
+                  a.getType() == "design %d" % k and a[0].p.xsType == "ABC"[k])
